@@ -123,6 +123,8 @@ PAIRS = {
     'Ipv6Header::dscp': ['h_newtypes::c15_ipv6_header_traffic_class'],
     'Ipv6Header::ecn': ['h_newtypes::c15_ipv6_header_traffic_class'],
     # checksums: protocol-level harnesses with the RFC oracle (small payloads) + the 64 KiB boundary harnesses
+    'Ipv4Header::calc_header_checksum': ['h_builder::c09_k_proto_ipv4_header'],
+    'UdpSlice::from_slice_lax': ['h_packet::c01_touch_udp_slice', 'h_packet::c05_lax_vs_strict_ip_v4_udp'],
     'UdpHeader::calc_checksum_post_ip': ['h_builder::c09_k_proto_udp_ipv4', 'h_builder::c09_k_proto_udp_ipv6'],
     'UdpHeader::calc_checksum_ipv4_internal': ['h_builder::c09_k_proto_udp_ipv4'],
     'UdpHeader::calc_checksum_ipv6_internal': ['h_builder::c09_k_proto_udp_ipv6'],
